@@ -253,3 +253,23 @@ Fixpoint expand_from (st : ir) (gs : list glob) (p : program) : program :=
 Definition expand (p : program) : program := expand_from [] [] p.
 
 End Mechanism.
+
+(* ---------------------------------------------------------------- the instance d2ir runs (ASCII names):
+   strings.EqualFold, the pinned matchPattern (a panic counts as "no match": the harness keeps such names out) *)
+Definition keq_go (a b : str) : bool := str_eqb (go_lower a) (go_lower b).
+Definition mt_go (n : str) (p : list str) : bool := match match_pattern n p with Ok b => b | Crash => false end.
+
+(* decidable well-formedness of a core-fragment program: explicit keys are not empty; a glob has no explicit
+   prefix, at least one pattern, no empty pattern, a non-empty suffix of reserved keywords (exact spelling), and
+   the same glob key is not written twice *)
+Definition nonemptyb {A} (l : list A) : bool := match l with [] => false | _ => true end.
+Definition glob_okb (g : glob) : bool :=
+  negb (nonemptyb (g_pre g)) && nonemptyb (g_pats g) && forallb nonemptyb (g_pats g)
+  && nonemptyb (g_suf g) && forallb go_reserved (g_suf g).
+Fixpoint wf_fromb (gs : list glob) (p : program) : bool :=
+  match p with
+  | [] => true
+  | SKey q _ :: r => nonemptyb q && wf_fromb gs r
+  | SGlob g :: r => glob_okb g && negb (existsb (fun g' => glob_eqb g' g) gs) && wf_fromb (gs ++ [g]) r
+  end.
+Definition wf_progb (p : program) : bool := wf_fromb [] p.
